@@ -2,7 +2,7 @@
 From Coq Require Import List Arith NArith Lia Bool.
 From BioSeq Require Import Bits Codec Spec SeqModel SeqProofs.
 Import ListNotations.
-Open Scope N_scope.
+Local Open Scope N_scope.
 
 Lemma compare_digit Bs x y X Y : x < Bs -> y < Bs ->
   (x + Bs * X ?= y + Bs * Y) = match X ?= Y with Eq => x ?= y | c => c end.
